@@ -257,7 +257,9 @@ package prover
 //@   let msg = pack.insBytes(p.StartIndex, p.PreRoot, p.PostRoot, p.IdComms)
 //@   ensures result == nil
 //@   ensures p.InputHash == bytes.beIntFrom(keccakb.hash256(msg, n), 0, 32)
-//@   lemmas minLen_def minLen_le beByte_min_lead0 beByte_min_tail insBytes_sel keccakb_ext
+// … which is the value the circuit enforces (C03), before reduction modulo r: lemma link_ins of spec/09_link.smt2
+//@   ensures p.InputHash == pack.beval(keccak.digest(pack.insBits(p.StartIndex, p.PreRoot, p.PostRoot, p.IdComms), 544 + 256 * len(p.IdComms), 1), 256)
+//@   lemmas minLen_def minLen_le beByte_min_lead0 beByte_min_tail insBytes_sel keccakb_ext link_ins
 //@   loop 1
 //@     invariant 0 <= iter && iter <= len(p.IdComms)
 //@     invariant len(data) == 68 + 32 * iter
@@ -274,7 +276,8 @@ package prover
 //@   let msg = pack.delBytes(p.DeletionIndices, p.PreRoot, p.PostRoot, B)
 //@   ensures result == nil
 //@   ensures p.InputHash == bytes.beIntFrom(keccakb.hash256(msg, n), 0, 32)
-//@   lemmas minLen_def minLen_le beByte_min_lead0 beByte_min_tail delBytes_sel keccakb_ext
+//@   ensures p.InputHash == pack.beval(keccak.digest(pack.delBits(p.DeletionIndices, p.PreRoot, p.PostRoot, B), 32 * B + 512, 1), 256)
+//@   lemmas minLen_def minLen_le beByte_min_lead0 beByte_min_tail delBytes_sel keccakb_ext link_del
 //@   assert@def:hashBytes len(data) == n
 //@   assert@def:hashBytes keccakb.hash256(data, n) == keccakb.hash256(msg, n)
 
